@@ -388,8 +388,18 @@ def ifm_block(V, accel, dil_x, dil_y, upscale):
     from ethosu.vela.operation import PointXY
     k.width, k.height, k.stride, k.dilation = kw, kh, PointXY(sx, sy), PointXY(dil_x, dil_y)
     mode = [resampling_mode.NONE, resampling_mode.NEAREST, resampling_mode.TRANSPOSE][upscale]
-    with core.shims((af, {"min": core.smin, "max": core.smax, "int": core.sint}), (nu, {"math": rat.SMATH, "int": core.sint})):
+    import ethosu.vela.register_command_stream_util as u
+    from ethosu.vela.architecture_features import Rect
+    from ethosu.vela import api as a
+
+    vol = None
+    with core.shims((af, {"min": core.smin, "max": core.smax, "int": core.sint}), (nu, {"math": rat.SMATH, "int": core.sint}),
+                    (u, {"min": core.smin, "max": core.smax, "int": core.sint})):
         blk = arch.get_ifm_block_size(bd, Block(bw, bh, 16), k, arch.ofm_block_max, mode)
+        if upscale == 0:
+            # the same volume as calc_blockdep obtains it: first job of the consumer (block offset 0) of a large feature map
+            vol = u.get_first_job_input_volume(arch, Rect(0, 0, 0, 4095, 4095, 63), Rect(0, 0, 0, 4095, 4095, 63), bd, Block(bw, bh, 16), k,
+                                               a.NpuPadding(0, 0, 0, 0), 0)
     up = 1 if upscale == 0 else 2
     ub = arch.ifm_ublock
     sub = arch.ofm_block_max
@@ -404,10 +414,22 @@ def ifm_block(V, accel, dil_x, dil_y, upscale):
              L(blk.height) == need(bh, sy, kh, dil_y, sub.height, ub.height)),
             ("IFM block width covers the columns of a job's input window (x stride, dilated kernel width, micro-block rounding)",
              L(blk.width) == need(bw, sx, kw, dil_x, sub.width, ub.width)),
-            ("IFM block depth is the requested depth", L(blk.depth) == L(bd))]
+            ("IFM block depth is the requested depth", L(blk.depth) == L(bd))] + ([] if vol is None else [
+                ("calc_blockdep's first-job input volume has that height", L(vol[1].y) - L(vol[0].y) == need(bh, sy, kh, dil_y, sub.height, ub.height)),
+                ("calc_blockdep's first-job input volume has that width", L(vol[1].x) - L(vol[0].x) == need(bw, sx, kw, dil_x, sub.width, ub.width)),
+                ("calc_blockdep's first-job input volume has the block depth", L(vol[1].z) - L(vol[0].z) == L(bd))])
 
 
-FUNCS = {"ifm_block": ifm_block, "waits": waits, "wait_step": wait_step, "rangeset": rangeset, "access": access, "dma_access": dma_access, "blockdep": blockdep, "shram_writes": shram_writes}
+def programmed_addresses(V, **params):
+    """the wait analysis reasons about the addresses listed in the operations; the hardware acts on the addresses in its registers.  Both agree only
+    if every address register holds the operation's value at its NPU_OP word - also when two consecutive values differ only in address bits 32..39
+    (harness/c06.py pair, address groups: elision is decided against an arbitrary previous register value)"""
+    from harness import c06
+
+    return c06.pair(V, **params)
+
+
+FUNCS = {"programmed_addresses": programmed_addresses, "ifm_block": ifm_block, "waits": waits, "wait_step": wait_step, "rangeset": rangeset, "access": access, "dma_access": dma_access, "blockdep": blockdep, "shram_writes": shram_writes}
 
 
 def instances(tier, seed):
@@ -416,6 +438,9 @@ def instances(tier, seed):
         for dx, dy in ((1, 1), (2, 1), (1, 2)):
             for ups in (0, 1, 2):
                 out.append(dict(key="ifm_block/%s/d%dx%d/up%d" % (accel, dx, dy, ups), fn="ifm_block", params=dict(accel=accel, dil_x=dx, dil_y=dy, upscale=ups)))
+    for kind, group in (("conv", "ifm_addr"), ("conv", "ofm_addr"), ("dma", "dma")):
+        out.append(dict(key="programmed_addresses/%s/%s" % (kind, group), fn="programmed_addresses",
+                        params=dict(accel="Ethos_U65_512", kind=kind, group=group, light=(kind != "dma")), weight=100))
     nmax = 6 if tier == "quick" else 9
     for accel in ("Ethos_U55_128", "Ethos_U65_256"):
         for n in range(1, nmax + 1):
